@@ -6,6 +6,9 @@
   NUL-terminated byte lists with `Option` word cells), `Hw.Base.Num` (`strtoul`, number printing).
 -/
 import Hw.Bitmap.ScanLemmas
+import Hw.Bitmap.RoundTripList
+import Hw.Bitmap.RoundTripTaskset
+import Hw.Bitmap.RoundTripHwloc
 namespace Hw.Props.C04
 open Hw Hw.Bitmap
 
@@ -77,5 +80,56 @@ example : hwlocScan (str "") = .ok [some 0#64] false := by decide
 example : hwlocScan (str "0x1,") = .ok [some 0x100000000#64] false := by decide
 example : hwlocScan (str ",0x1") = .ok [some 1#64] false := by decide
 example : (emitAll 5 (Bitmap.chunksList ⟨[0xf0f#64], false⟩)).ret = 8 := by decide
+
+/-! ## 3. round trip: parsing the printed text succeeds and yields a bitmap denoting the same set,
+for every bitmap (finite or infinite, any word count) -/
+
+theorem C04_roundtrip_hwloc (b : Bitmap) (hinv : b.Inv) :
+    ∃ ws inf, hwlocScan (text b.chunksHwloc) = .ok (ws.map some) inf ∧
+      ∀ n, (Bitmap.mk ws inf).mem n = b.mem n := hwloc_roundtrip b hinv
+
+theorem C04_roundtrip_taskset (b : Bitmap) (hinv : b.Inv) :
+    ∃ ws inf, tasksetScan (text b.chunksTaskset) = .ok (ws.map some) inf ∧
+      ∀ n, (Bitmap.mk ws inf).mem n = b.mem n := taskset_roundtrip b hinv
+
+/-- list format: inside the modelled domain of the list parser (indexes below `listMaxIndex = 2^21`) -/
+theorem C04_roundtrip_list (b : Bitmap) (hinv : b.Inv) (hb : b.count * 64 + 64 ≤ listMaxIndex) :
+    ∃ ws inf, listScan (text b.chunksList) = .ok (ws.map some) inf ∧
+      ∀ n, (Bitmap.mk ws inf).mem n = b.mem n := list_roundtrip b hinv hb
+
+/-- the same statements through `ScanRes.bitmap?`: the parser result is a bitmap equal (as a set) to `b` -/
+theorem C04_roundtrip_bitmap (b : Bitmap) (hinv : b.Inv) :
+    (∃ r, (hwlocScan (text b.chunksHwloc)).bitmap? = some r ∧ ∀ n, r.mem n = b.mem n) ∧
+    (∃ r, (tasksetScan (text b.chunksTaskset)).bitmap? = some r ∧ ∀ n, r.mem n = b.mem n) ∧
+    (b.count * 64 + 64 ≤ listMaxIndex →
+      ∃ r, (listScan (text b.chunksList)).bitmap? = some r ∧ ∀ n, r.mem n = b.mem n) := by
+  have key : ∀ (ws : List Word) (inf : Bool), (ScanRes.ok (ws.map some) inf).bitmap? = some ⟨ws, inf⟩ := by
+    intro ws inf
+    have : (ws.map some).mapM id = some ws := by
+      induction ws with
+      | nil => rfl
+      | cons w ws ih => simp [List.mapM_cons, ih]
+    simp [ScanRes.bitmap?, this]
+  refine ⟨?_, ?_, ?_⟩
+  · obtain ⟨ws, inf, h, hm⟩ := hwloc_roundtrip b hinv
+    exact ⟨⟨ws, inf⟩, by rw [h, key], hm⟩
+  · obtain ⟨ws, inf, h, hm⟩ := taskset_roundtrip b hinv
+    exact ⟨⟨ws, inf⟩, by rw [h, key], hm⟩
+  · intro hb
+    obtain ⟨ws, inf, h, hm⟩ := list_roundtrip b hinv hb
+    exact ⟨⟨ws, inf⟩, by rw [h, key], hm⟩
+
+/-! non-vacuity: concrete finite / infinite bitmaps with zero groups, a merged all-ones group and
+several words; the hypotheses hold and the parsers return the expected words -/
+example : (⟨[0x1#64, 0xffffffff00000000#64], true⟩ : Bitmap).Inv ∧
+    text (Bitmap.chunksHwloc ⟨[0x1#64, 0xffffffff00000000#64], true⟩) = str "0xf...f,,,0x00000001" := by decide
+example : hwlocScan (text (Bitmap.chunksHwloc ⟨[0x1#64, 0xffffffff00000000#64], true⟩))
+    = .ok [some 0x1#64, some 0xffffffff00000000#64] true := by decide
+example : hwlocScan (text (Bitmap.chunksHwloc ⟨[0x0#64, 0x500000000#64, 0#64], false⟩))
+    = .ok [some 0x0#64, some 0x500000000#64] false := by decide
+example : tasksetScan (text (Bitmap.chunksTaskset ⟨[0xf0#64, 0xffffffff00000001#64], true⟩))
+    = .ok [some 0xf0#64, some 0xffffffff00000001#64] true := by decide
+example : (⟨[0xf0f#64, 0x1#64], true⟩ : Bitmap).count * 64 + 64 ≤ listMaxIndex ∧
+    text (Bitmap.chunksList ⟨[0xf0f#64, 0x1#64], true⟩) = str "0-3,8-11,64,128-" := by decide
 
 end Hw.Props.C04
